@@ -60,7 +60,7 @@ func (p *Prog) VerifyFunc(fi *FuncInfo, spec *FuncSpec) (res *FuncResult) {
 	vc := &VC{p: p, u: p.u, fi: fi, spec: spec, info: fi.Pkg.TypesInfo, pkg: fi.Pkg.Types,
 		declSeen: map[string]bool{}, heap0: map[string]Term{}, heapSort: map[string]string{}, heapElemT: map[string]types.Type{},
 		counters: map[string]int{}, params: map[string]types.Object{}, paramTerm: map[string]Term{},
-		closures: map[string]*funcVal{}, litResults: map[*ast.FuncLit][]*types.Var{}, usedLoops: map[int]bool{}, usedSpecs: map[string]bool{}, usedAnchors: map[string]bool{}, lazyHeaps: map[string]Term{}}
+		closures: map[string]*funcVal{}, litResults: map[*ast.FuncLit][]*types.Var{}, usedLoops: map[int]bool{}, usedSpecs: map[string]bool{}, usedAnchors: map[string]bool{}, lazyHeaps: map[string]Term{}, havocKnown: map[string]map[string]bool{}}
 	defer func() {
 		if r := recover(); r != nil {
 			if ue, ok := r.(unsupportedErr); ok {
@@ -249,6 +249,7 @@ func (p *Prog) VerifyFunc(fi *FuncInfo, spec *FuncSpec) (res *FuncResult) {
 		}
 	}
 	for _, o := range vc.obls {
+		o.Weak = len(vc.abstracted) > 0
 		o.Decls = vc.decls
 		o.Facts = append(append([]string(nil), vc.base...), o.Facts...)
 		o.Inputs = vc.inputs
@@ -281,6 +282,8 @@ func (vc *VC) checkPost(ex *State) {
 		g := env.evalBool(e.Expr)
 		vc.oblige(ex, "post", e.Text, e.Where, g, e.Props)
 	}
+	// `assert @exit: e` clauses see the locals of the function at the exit
+	vc.anchors([]*State{ex}, "exit", nil)
 	if vc.spec.Pure {
 		vc.checkFrame(ex, vc.entry, nil, "frame", vc.spec.Where, vc.entry)
 	} else if vc.spec.HasWrites {
